@@ -374,7 +374,7 @@ def run_shard(job: dict[str, Any]) -> dict[str, Any]:
     return chk.to_result()
 
 
-def main(tier: str, seed: int) -> int:
+def _run(tier: str, seed: int) -> Check:
     chk = Check(PID, tier, seed, level=CATEGORY, rule=RULE)
     chk.require(
         "require_gate_failure",
@@ -393,8 +393,8 @@ def main(tier: str, seed: int) -> int:
     ]
     jobs: list[dict[str, Any]] = [{"tier": tier, "seed": seed, "kind": "table", "reps": 1 if tier == "quick" else 3}]
     if tier == "thorough":
-        for i in range(max(1, shard.ncpu() - 1)):
-            jobs.append({"tier": tier, "seed": seed * 1000 + i + 1, "kind": "fuzz", "count": 4000})
+        for i in range(6):
+            jobs.append({"tier": tier, "seed": seed * 1000 + i + 1, "kind": "fuzz", "count": 20000})
     else:
         jobs.append({"tier": tier, "seed": seed * 1000 + 1, "kind": "fuzz", "count": 400})
     for res in shard.pmap("checks.c24", "run_shard", jobs, timeout=600 if tier == "quick" else 2400):
@@ -402,4 +402,24 @@ def main(tier: str, seed: int) -> int:
     chk.exhaustive["mode x inner x proof-state table"] = True
     chk.exhaustive["chain_authenticate gate positions"] = True
     chk.exhaustive["field mutations of valid proofs"] = False
-    return chk.finish()
+    return chk
+
+
+def main(tier: str, seed: int) -> int:
+    return _run(tier, seed).finish()
+
+
+def replay(path: str) -> int:
+    """Re-execute the run (tier, seed) recorded in a replay file; the recorded mechanism key must fire again."""
+    import json
+
+    with open(path) as fh:
+        rec = json.load(fh)
+    chk = _run(rec["tier"], int(rec["seed"]))
+    v = chk.violations.get(rec["key"])
+    if v is not None:
+        print(f"VIOLATION property={PID} replay={path}")
+        print(f"  key={rec['key']}: reproduced ({v['count']}x): {v['what']}")
+        return 1
+    print(f"INCONCLUSIVE property={PID} reason=replay of {rec['key']} did not reproduce (other keys: {sorted(chk.violations)})")
+    return 2
